@@ -331,11 +331,11 @@ def inlined(module, func, depth=2, tests=False, exclude=(), nested=False):
                 if rep is None and nested:
                     # one helper call buried in the statement's expression (`acc.update(self._h(x))`, `if self._h(x) > 0:`):
                     # evaluate it into a fresh local first, when nothing else in the expression can have an effect
-                    root = st.value if isinstance(st, (ast.Expr, ast.Assign, ast.Return)) and st.value is not None else st.test if isinstance(st, ast.If) else None
+                    root = st.value if isinstance(st, (ast.Expr, ast.Assign, ast.Return, ast.AugAssign)) and st.value is not None else st.test if isinstance(st, ast.If) else None
                     if root is not None:
                         found = [(c_, resolve(c_)) for c_ in ast.walk(root) if isinstance(c_, ast.Call)]
                         found = [(c_, r_) for c_, r_ in found if r_[0] is not None]
-                        if len(found) == 1 and found[0][0] is not root or (len(found) == 1 and isinstance(st, ast.If)):
+                        if len(found) == 1 and ((found[0][0] is not root and not isinstance(st, ast.If)) or isinstance(st, ast.AugAssign) or (isinstance(st, ast.If) and tests)):
                             hc, (h, is_m) = found[0]
                             chain = set()
                             def mark(n, acc):
